@@ -764,6 +764,15 @@ func (x *Exec) loopEnter(fr *Frame, st *State, h *ssa.BasicBlock, ord int) {
 			x.havocAt(st, k, ref)
 		}
 	}
+	for _, k := range sortedKeys(ws.ghost) {
+		if strings.HasPrefix(k, "call:") {
+			delete(st.calls, strings.TrimPrefix(k, "call:"))
+		} else if cur, ok := st.ghost[k]; ok {
+			st.ghost[k] = x.c.Fresh("ghost", cur.S)
+		} else {
+			st.ghost[k] = x.c.Fresh("ghost", idxSort)
+		}
+	}
 	x.bumpAlloc(st)
 	x.havocPhis(fr, st, h)
 	// automatic invariants for induction variables
